@@ -14,6 +14,7 @@ analyze(spec) explores the harness symbolically and returns a Result whose statu
 """
 import inspect
 import time
+import os
 import traceback
 from collections import Counter
 from dataclasses import dataclass, field
@@ -270,4 +271,10 @@ def run_concrete(fn, args, timeout_s=None):
     except HarnessError as e:
         return 'harness', 'HarnessError: %s' % (e,)
     except Exception as e:
+        # an exception that was raised by the harness's own code (innermost frame under /verif, e.g. a NameError in a
+        # check) says nothing about the code under test: harness error, not a finding
+        tb = traceback.extract_tb(e.__traceback__)
+        here = os.path.dirname(os.path.dirname(os.path.abspath(__file__)))
+        if tb and os.path.abspath(tb[-1].filename).startswith(here + os.sep) and isinstance(e, (NameError, UnboundLocalError, ImportError)):
+            return 'harness', 'HarnessError: %s in the harness itself: %s\n%s' % (type(e).__name__, e, traceback.format_exc())
         return 'error', '%s: %s\n%s' % (type(e).__name__, e, traceback.format_exc())
